@@ -630,6 +630,7 @@ fn gen_case(rng: &mut Rng) -> Case {
         array_contains: rng.chance(1, 12),
         concat_lit_arith_char: rng.chance(1, 12),
         undefined_mix: rng.chance(1, 10),
+        fact_name_literals: rng.chance(1, 10),
     };
     let n = 1 + rng.below(5);
     let max_depth = *rng.pick(&[1usize, 2, 3, 4, 6]);
@@ -725,7 +726,7 @@ impl Check for C01 {
         "C01"
     }
     fn rule(&self) -> String {
-        "GRL text generated from the grammar of the typed core (1-5 rules, condition trees to depth 6 over == != < <= > >= contains startsWith endsWith in, field/literal/field-reference/arithmetic leaves with chains of up to 4 operators, assignments of literals, references, arithmetic and string concatenation) x fact stores over a 19-field schema (flat keys, dotted flat keys, nested objects to depth 3, int/float/string/bool/array values, ~20% of fields absent) x max_cycles {1,3}, parsed and executed by the real engine; plus the exhaustive single-leaf matrix (11 left fields incl. absent x 10 operators x 29 right-hand sides, plain and negated). A case is non-trivial when at least one firing was judged true AND at least one considered rule was judged false on the same run; distinct by (rules, store, max_cycles). Cases whose oracle value is Undefined at a decision point are skipped from there on and counted under skipped_undefined::<reason>.".into()
+        "GRL text generated from the grammar of the typed core (1-5 rules, condition trees to depth 6 over == != < <= > >= contains startsWith endsWith in, field/literal/field-reference/arithmetic leaves with chains of up to 4 operators, assignments of literals, references, arithmetic and string concatenation; in one case in 10 half of the assigned string literals are the name of a fact of the schema, `s0 = \"n0\"`, which stays a text) x fact stores over a 19-field schema (flat keys, dotted flat keys, nested objects to depth 3, int/float/string/bool/array values, ~20% of fields absent) x max_cycles {1,3}, parsed and executed by the real engine; plus the exhaustive single-leaf matrix (11 left fields incl. absent x 10 operators x 29 right-hand sides, plain and negated). A case is non-trivial when at least one firing was judged true AND at least one considered rule was judged false on the same run; distinct by (rules, store, max_cycles). Cases whose oracle value is Undefined at a decision point are skipped from there on and counted under skipped_undefined::<reason>.".into()
     }
     fn assumptions(&self) -> Vec<String> {
         vec![
